@@ -100,9 +100,9 @@ prop("C06", quick={"runs": 8000}, thorough={"runs": 100000000, "budget_s": 600},
      "modes, callers cancel before/after return or let a deadline pass; one family shares a request context between goroutines, one rebuilds "
      "values equal to the stale ones (ObserveMutability on/off). Non-trivial: at least one builder invocation.",
      rules=["C06.R1 the final store exists and its TTL = reference fold", "C06.R2 stale re-store uses UpdateTTL", "C06.R3 caller context TTL after Get",
-            "C06.R4 background build context: no Err, no deadline, Done never fires, values visible", "C06.R5 SkipRead rebuilds and stores"],
+            "C06.R4 background build context: no Err, no deadline, Done never fires, values visible", "C06.R5 SkipRead rebuilds and stores; a SkipRead Get is never answered with a value built before it was invoked"],
      probes=["builder_communicated_ttl", "background_build_ctx_observed", "background_build_with_cancelled_caller_ctx",
-             "stale_refresh_write", "lone_skipread_get", "skipread_get_with_cached_failure", "shared_request_context", "rebuilt_value_equal_to_stale_one"])
+             "stale_refresh_write", "lone_skipread_get", "skipread_get_with_cached_failure", "skipread_result_provenance_checked", "shared_request_context", "rebuilt_value_equal_to_stale_one"])
 
 BE_RULE = ("Backend scenarios (keys incl. empty, 1-byte, 300-byte, binary, common-prefix and constructed xxhash64 collision "
            "families; unique value tokens, on the untyped backends carried as struct, slice, map, struct-with-slice or pointer; TTL modes default / unlimited / per-call positive / negative; SkipRead) are drawn from the "
